@@ -45,6 +45,11 @@ def violators (e : Env) (s : State) : List (String × String × List String) :=
     ("C11", "metaLifetimeSane", s.metas.filterMap (fun m => if m.createdAt + m.duration < 9223372036854775808 then none else some s!"meta{m.dataId.take 8}")),
     ("C04", "escrowsSettled", if escrowsSettled e s then [] else ["escrows"]),
     ("C17", "didFunctional", if didFunctional s.did then [] else ["did"]),
+    -- the same chain account is one account however its id is spelled (eip155 addresses are case-insensitive hex)
+    ("C17", "accountBoundOnce",
+      let norm (b : Bytes) : Bytes := if isPrefixB [101, 105, 112, 49, 53, 53, 58] b then b.map (fun c => if 65 ≤ c && c ≤ 90 then c + 32 else c) else b
+      let ids := s.did.did.map (fun x => norm x.accountId)
+      if ids.eraseDups.length = ids.length then [] else ["same-account-two-spellings"]),
     ("C17", "didListsAgree", if didListsAgree s.did then [] else ["did"]),
     ("C17", "sidPayAddrBound", if sidPayAddrBound s.did then [] else ["did"]),
     ("C17", "keyPayAddrSelf", if keyPayAddrSelf s.did then [] else ["did"]),
@@ -200,8 +205,9 @@ def faultViolations (pre post : State) (op : Op) : List String :=
   (newFaults.filterMap (fun f =>
     match pre.getOrder f.orderId, pre.getShard f.shardId with
     | some o, some sh =>
+      -- "actually holds": the shard is stored (a shard that is only assigned, migrating in or timed out is not held)
       if o.shards.contains f.shardId && sh.sp = f.provider && o.dataId = f.dataId && (pre.getMeta f.dataId).isSome &&
-         addU64 sh.createdAt sh.duration > toU64 pre.h then none else some s!"invalid-report-shard{f.shardId}-order{f.orderId}"
+         sh.status = ShardCompleted && addU64 sh.createdAt sh.duration > toU64 pre.h then none else some s!"invalid-report-shard{f.shardId}-order{f.orderId}"
     | _, _ => some s!"invalid-report-shard{f.shardId}-order{f.orderId}")) ++
   -- 3. nothing but the fault stores and the accused provider's own pledge changes
   (if pre.bank ≠ post.bank || pre.supply ≠ post.supply then ["balances-changed"] else []) ++
